@@ -124,14 +124,89 @@ def _c3(cls):
     return [cls] + merge([_c3(b) for b in cls.bases] + [list(cls.bases)])
 
 
+def _forward_target(fn, is_method):
+    """`def m(self, a, b=1): [docstring]; return self.t(a, b)` (or `return t(a, b)` at module level) -> 't': a function that does nothing
+    but hand its own parameters, in order, to one other function."""
+    if fn.decorator_list or not isinstance(fn, ast.FunctionDef):
+        return None
+    body = list(fn.body)
+    if body and isinstance(body[0], ast.Expr) and isinstance(body[0].value, ast.Constant) and isinstance(body[0].value.value, str):
+        body = body[1:]
+    if len(body) != 1 or not isinstance(body[0], ast.Return) or not isinstance(body[0].value, ast.Call):
+        return None
+    call = body[0].value
+    a = fn.args
+    if a.vararg or a.kwarg or a.kwonlyargs or a.posonlyargs or call.keywords:
+        return None
+    params = [x.arg for x in a.args]
+    if is_method:
+        if not params or params[0] != "self":
+            return None
+        f = call.func
+        if not (isinstance(f, ast.Attribute) and isinstance(f.value, ast.Name) and f.value.id == "self"):
+            return None
+        target, params = f.attr, params[1:]
+    else:
+        if not isinstance(call.func, ast.Name):
+            return None
+        target = call.func.id
+    if [x.id if isinstance(x, ast.Name) else None for x in call.args] != params:
+        return None
+    return target
+
+
+def collapse_forwarders(trees):
+    """Normalisation applied to the parsed package before anything is analysed: a function that only forwards its parameters to another
+    function of the same class / module WHICH NOBODY ELSE REFERS TO is the same program as that function under the forwarder's name
+    (what an 'extract the body into _impl' refactoring produces). The pair is folded back: the forwarder gets the body, the target goes."""
+    uses = {}
+    for t in trees.values():
+        for n in ast.walk(t):
+            k = n.attr if isinstance(n, ast.Attribute) else (n.id if isinstance(n, ast.Name) else None)
+            if k is not None:
+                uses[k] = uses.get(k, 0) + 1
+    # uses of a name that ARE such forwarding calls (the same method name can be split in several classes of a family)
+    fwd = {}
+    for t in trees.values():
+        for scope, is_method in [(t, False)] + [(n, True) for n in ast.walk(t) if isinstance(n, ast.ClassDef)]:
+            for st in scope.body:
+                if isinstance(st, ast.FunctionDef):
+                    tg = _forward_target(st, is_method)
+                    if tg is not None:
+                        fwd[tg] = fwd.get(tg, 0) + 1
+    uses = {k: v - fwd.get(k, 0) + (1 if fwd.get(k) else 0) for k, v in uses.items()}  # all forwarding uses count as the one allowed use
+    for t in trees.values():
+        scopes = [(t, False)] + [(n, True) for n in ast.walk(t) if isinstance(n, ast.ClassDef)]
+        for scope, is_method in scopes:
+            changed = True
+            while changed:
+                changed = False
+                defs = {st.name: st for st in scope.body if isinstance(st, ast.FunctionDef)}
+                for name, fn in list(defs.items()):
+                    tgt = _forward_target(fn, is_method)
+                    if tgt is None or tgt == name or tgt not in defs or uses.get(tgt, 0) != 1:
+                        continue
+                    target = defs[tgt]
+                    if target.decorator_list or ast.dump(target.args) != ast.dump(fn.args):
+                        continue
+                    doc = fn.body[:-1]
+                    tbody = list(target.body)
+                    if doc and tbody and isinstance(tbody[0], ast.Expr) and isinstance(tbody[0].value, ast.Constant) and isinstance(tbody[0].value.value, str):
+                        tbody = tbody[1:]
+                    fn.body = doc + tbody
+                    scope.body = [st for st in scope.body if st is not target]
+                    changed = True
+                    break
+
+
 class Module:
-    def __init__(self, name, path, relpath, source):
+    def __init__(self, name, path, relpath, source, tree=None):
         self.name = name
         self.path = path
         self.relpath = relpath
         self.source = source
         self.lines = source.splitlines()
-        self.tree = ast.parse(source, filename=path)
+        self.tree = tree if tree is not None else ast.parse(source, filename=path)
         self.imports = {}  # local alias -> dotted target ("numpy", "elexmodel.handlers.s3", "elexmodel.x.Y")
         self.functions = {}
         self.classes = {}
@@ -212,6 +287,7 @@ class Repo:
         pk = os.path.join(self.src_root, PKG)
         if not os.path.isdir(pk):
             raise AnalysisError(f"package directory {pk} not found")
+        parsed = {}
         for dp, dns, fns in os.walk(pk):
             dns[:] = sorted(d for d in dns if d != "__pycache__")
             for fn in sorted(fns):
@@ -225,9 +301,12 @@ class Repo:
                 with open(path, encoding="utf-8") as f:
                     src = f.read()
                 try:
-                    self.modules[modname] = Module(modname, path, rel, src)
+                    parsed[modname] = (path, rel, src, ast.parse(src, filename=path))
                 except SyntaxError as e:
                     raise AnalysisError(f"{rel}: does not parse: {e}")
+        collapse_forwarders({k: v[3] for k, v in parsed.items()})
+        for modname, (path, rel, src, tree) in parsed.items():
+            self.modules[modname] = Module(modname, path, rel, src, tree)
         self._link()
 
     # ---- lookup helpers -------------------------------------------------------------------
